@@ -17,15 +17,30 @@ KNOBS = ["attractor_candidates_limit", "retained_set_optimization_threshold", "m
 
 class C08(Machine):
     ID = "C08"
-    FAMILY_WEIGHTS = {"sparse": 3, "dense": 3, "canal": 1, "modular": 2, "maa": 3}
+    FAMILY_WEIGHTS = {"sparse": 3, "dense": 3, "canal": 1, "modular": 2, "maa": 3, "cascade": 1, "maa_cascade": 3}
     NMAX = {"quick": 6, "thorough": 8}
 
     def gen_params(self, sc, rng):
         sc["params"] = {"prefix": rng.choice([0, 0, 1, 2, 3]), "queries": rng.randint(1, 3), "knob_mode": rng.choice(["default", "random", "relative", "relative"])}
+        if rng.random() < 0.35:
+            # skip scan: partial expansion, skipping, then candidates of every node in a seeded
+            # order (skip nodes prune by what other nodes already proved empty)
+            sc["params"] = {"mode": "skip_scan", "expand": rng.randint(1, 4), "skip": rng.choice(["remaining", "each", "remaining"]), "prefix": 0, "queries": 14, "knob_mode": "default"}
         if rng.random() < 0.5:
             sc["walk_seed"] = rng.randrange(1 << 30)
         if rng.random() < 0.3:
             sc["reorder_seed"] = rng.randrange(1 << 30)
+
+    def gen_scenario(self, run_seed, tier):
+        sc = super().gen_scenario(run_seed, tier)
+        if sc["params"].get("mode") == "skip_scan":
+            from ..machine import sub_rng
+            from ..netgen import gen_network
+
+            rng = sub_rng(run_seed, "net-skip-scan")
+            if rng.random() < 0.7:
+                sc["net"] = gen_network(rng, {"maa_cascade": 3, "maa": 1}, nmax=self.NMAX.get(tier, 6), fmts=self.FMTS)
+        return sc
 
     def setup(self, world, sc):
         return {"params": sc["params"], "n_prefix": 0, "n_q": 0, "pending": [], "sc": sc, "checked": 0, "limit_errors": 0, "knob_values": []}
@@ -55,6 +70,8 @@ class C08(Machine):
         p = st["params"]
         if st["pending"]:
             return st["pending"].pop(0)
+        if p.get("mode") == "skip_scan":
+            return self.choose_skip_scan(world, st, rng, step)
         if st["n_prefix"] < p["prefix"]:
             st["n_prefix"] += 1
             return structural_op(world, rng)
@@ -90,6 +107,39 @@ class C08(Machine):
         ops.append(q)
         st["pending"] = ops[1:]
         return ops[0]
+
+    def choose_skip_scan(self, world, st, rng, step):
+        p = st["params"]
+        ph = st.setdefault("phase", "expand")
+        if ph == "expand":
+            if st["n_prefix"] == 0:
+                st["n_prefix"] = 1
+                return {"op": "expand_one", "node": world.space_of(0)}
+            stubs = world.stubs()
+            if st["n_prefix"] <= p["expand"] and stubs:
+                st["n_prefix"] += 1
+                return {"op": "expand_one", "node": world.space_of(rng.choice(stubs))}
+            st["phase"] = ph = "skip"
+        if ph == "skip":
+            stubs = world.stubs()
+            if p["skip"] == "each" and stubs and st["n_q"] < 3:
+                st["n_q"] += 1
+                return {"op": "skip_to_minimal", "node": world.space_of(rng.choice(stubs))}
+            st["phase"] = "scan"
+            st["n_q"] = 0
+            return {"op": "skip_remaining"}
+        # scan
+        if st.get("queue") is None:
+            q = list(world.node_ids())
+            rng.shuffle(q)
+            st["queue"] = [world.space_of(i) for i in q][: p["queries"]]
+        while st["queue"]:
+            sp = st["queue"].pop()
+            nid = world.node_of(sp)
+            d = world.sd.node_data(nid)
+            if d["attractor_candidates"] is None and d["attractor_seeds"] is None:
+                return {"op": "candidates", "node": sp, "compute": True, "greedy": rng.random() < 0.7, "sim": rng.random() < 0.7, "q": True}
+        return None
 
     def check_step(self, world, st, op, out, step):
         if not op.get("q"):
